@@ -77,3 +77,13 @@ Example C01_refuted_listen :
   let ls := PyM.run tpl_Listen [OAdd s_other_listen; OAdd s_other_listen; ORemove 0; ORemove 0; OFinal false] in
   passes (last_line ls) = true /\ ord_names (last_line ls) = [] /\ accepts (re_of tpl_Listen) [] = false.
 Proof. vm_compute. auto. Qed.
+
+(* ---- whole documents ---- *)
+From MX Require Import Model.SeqIds Model.Doc Model.DocTables.
+Definition rows_ok1 : forall r, In r cm_rows -> cm_row_ok r = true := fun r I => forallb_In _ _ _ cm_rows_ok I.
+(* an element tree of ANY depth whose nodes are consistent states of the machines of their types (sequence, choice or bag class) and whose identities
+   point at the right children: whatever to_string emits from it - i.e. the final check passed at every node - is schema-valid at EVERY node: the
+   children of every element, in the order emitted, are a word of the SCHEMA's content model of its type *)
+Theorem C01_document_valid : forall e d, doc_elt_ok e -> doc_emit e = Some d -> schema_valid d.
+Proof. exact (tables_emitted_valid rows_ok1). Qed.
+Print Assumptions C01_document_valid.
